@@ -1,3 +1,4 @@
+import H2V.Spec.Http
 /-
   Wire-level reference monitors for one endpoint ("us"), written from RFC 9113 and from the
   property statements, not from h2's code.  Input: the frames we write (`tx`), the frames the peer
@@ -15,7 +16,7 @@ inductive Role where
 
 /-- a frame as seen on the wire, header blocks reassembled (CONTINUATION folded into its head) -/
 inductive Fr where
-  | data (sid flags len : Nat)            -- len = flow-controlled length (payload incl. padding)
+  | data (sid flags len dataLen : Nat)    -- len = flow-controlled length (payload incl. padding), dataLen = without
   | headers (sid flags : Nat) (fields : List (List Nat × List Nat))
   | pushPromise (sid promised : Nat) (fields : List (List Nat × List Nat))
   | priority (sid : Nat)
@@ -30,7 +31,7 @@ inductive Fr where
   deriving Repr, DecidableEq
 
 def Fr.endStream : Fr → Bool
-  | .data _ fl _ => fl % 2 == 1
+  | .data _ fl _ _ => fl % 2 == 1
   | .headers _ fl _ => fl % 2 == 1
   | _ => false
 
@@ -49,6 +50,13 @@ structure Str where
   rxFrames : Nat := 0           -- frames the peer sent on the stream
   sendCredit : Int := 0         -- C02: what the peer has granted us and we have not used
   recvAdvert : Int := 0         -- C03: the window we advertise, as the peer computes it
+  rxFinal : Bool := false       -- the peer sent its (non-interim) head
+  rxHeadBad : List String := []     -- C13: rules the peer's head violates
+  rxTrailersBad : List String := [] -- C13: rules the peer's trailers violate
+  rxCl : Option (Option Nat) := none -- C13: content-length announced by the peer's head
+  rxBody : Nat := 0                 -- C13: DATA payload octets received
+  noBody : Bool := false            -- C13: response to HEAD, or status 204 / 304
+  ourMethodHead : Bool := false
   deriving Repr
 
 structure WSt where
@@ -76,6 +84,7 @@ structure WSt where
   txGoaway : Option Nat := none
   rxGoaway : Option Nat := none
   txGoawayErr : Bool := false
+  openExempt : List Nat := []         -- streams whose HEADERS were already in the codec when a GOAWAY was queued for us
   apiResets : List (Nat × Nat) := []  -- streams the application reset explicitly, with the number of their
                                       -- DATA frames that were already in the codec's write buffer
   deriving Repr
@@ -134,14 +143,16 @@ def tx (w : WSt) (f : Fr) : WSt × List Viol :=
             (if ¬ ours w.role sid then ["C04 opens-stream-with-peer-parity"] else []) ++
             (if w.role = .server then ["C04 server-opens-stream-with-HEADERS"] else []) ++
             (if sid ≤ w.maxLocalId then ["C04 stream-id-not-increasing"] else []) ++
-            (if w.rxGoaway.isSome then ["C15 opens-stream-after-receiving-GOAWAY"] else []) ++
+            (if w.rxGoaway.isSome ∧ ¬ w.openExempt.contains sid then ["C15 opens-stream-after-receiving-GOAWAY"] else []) ++
             (if w.txGoaway.isSome then ["C15 opens-stream-after-sending-GOAWAY"] else []) ++
             (match w.peerMaxConc with
              | some m => if (w.strs.filter fun s => ours w.role s.id && s.countsOpen).length ≥ m
                          then ["C05 exceeds-peer-max-concurrent-streams"] else []
-             | none => [])
+             | none => []) ++
+            ((Http.request fields true).map fun r => "C13 tx-request-" ++ r)
           let s : Str := { id := sid, txHeaders := 1, txFinal := true, txEnd := fl % 2 == 1,
-                           sendCredit := w.peerIws, recvAdvert := w.ourIwsAcked }
+                           sendCredit := w.peerIws, recvAdvert := w.ourIwsAcked,
+                           ourMethodHead := Http.get fields ":method" == [Http.ascii "HEAD"] }
           ({ (w.put s) with maxLocalId := max w.maxLocalId sid }, viols)
         | some s =>
           let viols : List Viol :=
@@ -149,10 +160,13 @@ def tx (w : WSt) (f : Fr) : WSt × List Viol :=
             (if s.txRst > 0 then ["C04 headers-after-RST_STREAM"] else []) ++
             (if ours w.role sid ∧ ¬ s.reservedByUs ∧ w.role = .server then ["C04 headers-on-unopened-stream"] else []) ++
             (if ¬ ours w.role sid ∧ s.rxHeaders = 0 then ["C04 headers-on-idle-stream"] else []) ++
-            (if s.txFinal ∧ ¬ info ∧ fl % 2 ≠ 1 then ["C04 second-final-headers-without-END_STREAM"] else [])
+            (if s.txFinal ∧ ¬ info ∧ fl % 2 ≠ 1 then ["C04 second-final-headers-without-END_STREAM"] else []) ++
+            (if s.txFinal then (Http.trailers fields).map fun r => "C13 tx-trailers-" ++ r
+             else if w.role = .server ∨ s.reservedByUs then (Http.response fields).map fun r => "C13 tx-response-" ++ r
+             else [])
           let s' := { s with txHeaders := s.txHeaders + 1, txFinal := s.txFinal || ¬ info, txEnd := s.txEnd || fl % 2 == 1 }
           (w.put s', viols)
-    | .data sid fl len =>
+    | .data sid fl len _ =>
       if sid = 0 then (w, ["C04 data-on-stream-0"])
       else match w.get sid with
         | none => (w, ["C04 data-on-idle-stream"])
@@ -244,17 +258,29 @@ def tx (w : WSt) (f : Fr) : WSt × List Viol :=
 /-- fold of peer frames into the wire state; peer violations are not judged here (C09 does that) -/
 def rx (w : WSt) (f : Fr) : WSt × List Viol :=
   match f with
-  | .headers sid fl _ =>
+  | .headers sid fl fields =>
     match w.get sid with
     | none =>
-      let s : Str := { id := sid, rxHeaders := 1, rxEnd := fl % 2 == 1, recvAdvert := w.ourIwsAcked, sendCredit := w.peerIws }
+      -- the peer opens a stream: a request
+      let s : Str := { id := sid, rxHeaders := 1, rxEnd := fl % 2 == 1, recvAdvert := w.ourIwsAcked, sendCredit := w.peerIws,
+                       rxFinal := true, rxHeadBad := Http.request fields true, rxCl := Http.contentLength fields }
       ({ (w.put s) with maxPeerId := if ours w.role sid then w.maxPeerId else max w.maxPeerId sid }, [])
-    | some s => (w.put { s with rxHeaders := s.rxHeaders + 1, rxEnd := s.rxEnd || fl % 2 == 1, rxFrames := s.rxFrames + 1 }, [])
-  | .data sid fl len =>
+    | some s =>
+      let s1 := { s with rxHeaders := s.rxHeaders + 1, rxEnd := s.rxEnd || fl % 2 == 1, rxFrames := s.rxFrames + 1 }
+      let s2 :=
+        if s.rxFinal then { s1 with rxTrailersBad := Http.trailers fields ++ (if fl % 2 == 1 then [] else ["trailers-without-END_STREAM"]) }
+        else if Http.isInterim fields then
+          { s1 with rxHeadBad := s1.rxHeadBad ++ Http.response fields ++ (if fl % 2 == 1 then ["interim-with-END_STREAM"] else []) }
+        else
+          let st := Http.get fields ":status"
+          { s1 with rxFinal := true, rxHeadBad := s1.rxHeadBad ++ Http.response fields, rxCl := Http.contentLength fields,
+                    noBody := s.ourMethodHead || st == [Http.ascii "204"] || st == [Http.ascii "304"] }
+      (w.put s2, [])
+  | .data sid fl len dl =>
     let w := { w with connRecvAdvert := w.connRecvAdvert - len }
     match w.get sid with
     | none => (w, [])
-    | some s => (w.put { s with rxEnd := s.rxEnd || fl % 2 == 1, recvAdvert := s.recvAdvert - len, rxFrames := s.rxFrames + 1 }, [])
+    | some s => (w.put { s with rxEnd := s.rxEnd || fl % 2 == 1, recvAdvert := s.recvAdvert - len, rxFrames := s.rxFrames + 1, rxBody := s.rxBody + dl }, [])
   | .pushPromise _ promised _ =>
     (w.put { id := promised, reservedByPeer := true, recvAdvert := w.ourIwsAcked, sendCredit := w.peerIws }, [])
   | .rst sid _ =>
@@ -286,16 +312,37 @@ def rx (w : WSt) (f : Fr) : WSt × List Viol :=
 def apiReset (w : WSt) (sid inCodec : Nat) : WSt :=
   if w.apiResets.any (·.1 = sid) then w else { w with apiResets := (sid, inCodec) :: w.apiResets }
 
+/-- the receive API handed something of stream `sid` to the application (C13) -/
+def delivered (w : WSt) (sid : Nat) (what : String) : List Viol :=
+  match w.get sid with
+  | none => []
+  | some s =>
+    if what == "head" then s.rxHeadBad.map fun r => "C13 delivered-malformed-head-" ++ r
+    else if what == "trailers" then s.rxTrailersBad.map fun r => "C13 delivered-malformed-trailers-" ++ r
+    else if what == "end" then
+      match s.rxCl with
+      | some (some n) =>
+        if s.noBody then (if s.rxBody ≠ 0 then ["C13 clean-end-of-a-bodyless-response-that-carried-data"] else [])
+        else if s.rxBody ≠ n then ["C13 clean-end-although-body-differs-from-content-length"] else []
+      | some none => ["C13 clean-end-with-unparsable-content-length"]
+      | none => []
+    else []
+
+/-- HEADERS of `sid` were already handed to the codec when a GOAWAY was queued for us -/
+def exemptOpen (w : WSt) (sid : Nat) : WSt := { w with openExempt := sid :: w.openExempt }
+
 /-- the application raised the connection-level target window -/
 def apiTarget (w : WSt) (n : Nat) : WSt := { w with connRecvMax := max w.connRecvMax n }
 
 /-- end-of-history checks, to be evaluated once the connection is quiescent with an open transport
     (every owed reply must have been written): C14 "exactly one acknowledgement" -/
 def quiescent (w : WSt) : List Viol :=
-  (if ¬ w.rxSettingsQ.isEmpty ∧ ¬ w.txGoawayErr then ["C14 SETTINGS-never-acknowledged"] else []) ++
-  (if ¬ w.rxPings.isEmpty ∧ ¬ w.txGoawayErr then ["C14 PING-never-answered"] else []) ++
+  -- (an endpoint that has sent GOAWAY and closed the connection no longer answers)
+  (if ¬ w.rxSettingsQ.isEmpty ∧ w.txGoaway.isNone then ["C14 SETTINGS-never-acknowledged"] else []) ++
+  (if ¬ w.rxPings.isEmpty ∧ w.txGoaway.isNone then ["C14 PING-never-answered"] else []) ++
   (w.strs.filterMap fun s =>
     if w.apiResets.any (·.1 = s.id) ∧ s.txHeaders > 0 ∧ s.txRst = 0 ∧ ¬ (s.txEnd ∧ s.rxEnd) ∧ ¬ s.rxRst ∧ ¬ w.txGoawayErr
+       ∧ w.txGoaway.isNone ∧ (match w.rxGoaway with | some last => decide (s.id ≤ last) | none => true) = true
     then some s!"C17 no-RST_STREAM-for-reset-stream-{s.id}" else none)
 
 end H2V.Spec.Wire
